@@ -40,6 +40,10 @@ def model (line : String) : String :=
   | none => "bad-op"
 
 def monitor (op obs : String) : String :=
+  -- two-call discipline of the harness: the second call on the same chain handles must give the
+  -- same answer and must not change the values the chains own
+  if (obs.splitOn " #2:").length > 1 then "FAIL second-call-on-same-chain-differs" else
+  if (obs.splitOn " mutated:").length > 1 then "FAIL chain-owned-value-mutated" else
   match parseInput op, parseOut obs with
   | some i, some o => if C32.holds i o then "ok" else "FAIL confirmations-rule"
   | none, _ => "FAIL bad-op"
